@@ -12,7 +12,7 @@ REPLAY = os.path.join(VERIF, "build", "replay")
 
 ASAN_ENV = {
     "ASAN_OPTIONS": "detect_leaks=0:abort_on_error=0:exitcode=99:allocator_may_return_null=1:detect_stack_use_after_return=0",
-    "UBSAN_OPTIONS": "print_stacktrace=1:halt_on_error=1:exitcode=98",
+    "UBSAN_OPTIONS": "print_stacktrace=1:halt_on_error=1:abort_on_error=1",
     "TSAN_OPTIONS": "exitcode=0:halt_on_error=0:report_signal_unsafe=0",
 }
 
